@@ -3,6 +3,8 @@ EXTENDS Negotiation
 Cf(i, sm, t, cr) == [insecure |-> i, sm |-> sm, tls |-> t, cred |-> cr, ws |-> FALSE, wss |-> FALSE, skiptls |-> FALSE, sessalways |-> FALSE]
 \* C03: insecure allowed or not, stream management requested or not
 CfgC03 == {Cf(i, sm, "ca", "password") : i \in BOOLEAN, sm \in BOOLEAN}
+\* the credential kind is not in the statement's list of configurations, but the SASL step depends on it
+CfgC03tok == {Cf(TRUE, sm, "ca", "token") : sm \in BOOLEAN}
 CfgC03two == {Cf(TRUE, TRUE, "ca", "password")}
 \* C04: every client TLS configuration, insecure on/off
 CfgC04 == {Cf(i, FALSE, t, "password") : i \in BOOLEAN, t \in {"none", "ca", "casn", "caother", "skip"}}
@@ -19,6 +21,7 @@ CfgC03ws == {CfW(TRUE, sm, FALSE) : sm \in BOOLEAN} \cup {CfW(FALSE, TRUE, TRUE)
 CfgC11ws == {CfW(TRUE, TRUE, FALSE)}
 P == <<"PLAIN">>
 MechPlain == {P}
+MechBoth == {<<"PLAIN", "X-OAUTH2">>}
 MechAll == {<<>>, <<"PLAIN">>, <<"X-OAUTH2">>, <<"SCRAM-SHA-1">>, <<"PLAIN", "X-OAUTH2">>, <<"X-OAUTH2", "PLAIN">>, <<"SCRAM-SHA-1", "PLAIN">>,
             <<"PLAIN", "PLAIN">>, <<"UNKNOWN", "X-OAUTH2", "DIGEST-MD5">>, <<"plain">>, <<"SCRAM-SHA-1", "UNKNOWN">>}
 ====
